@@ -173,6 +173,81 @@ func TestC14(t *testing.T) {
 		if c.Thorough {
 			n = 30000
 		}
+		// chains of subscripts and property selections whose later parts change what the earlier parts have
+		// already read: each bracket is applied before the next subscript expression runs, a failing access
+		// stops the rest, and stores through chains hit the container that was read
+		c.Rapid("selector-chains", n, func(rt *rapid.T, s *Sub) {
+			V, F, R := bn.KwVar, bn.KwFun, bn.KwReturn
+			var b strings.Builder
+			b.WriteString(V + " grid = [[1, 2], [3, 4]];\n" + V + " cube = [[[5, 6], [7, 8]], [[9, 10], [11, 12]]];\n" + V + " tree = {a: [13, 14], b: {c: [15, 16]}, rows: [[17, 18], [19, 20]]};\n" + V + " x = 0;\n")
+			b.WriteString(F + " p(t, v) { " + P + " t; " + R + " v; }\n")
+			b.WriteString(F + " swap(v) { " + P + " \"swap\"; grid[0] = [100, 200]; grid[1] = [300, 400]; " + R + " v; }\n")
+			b.WriteString(F + " cut(v) { " + P + " \"cut\"; cube[0] = [[500, 600], [700, 800]]; cube[1][0] = [900, 1000]; " + R + " v; }\n")
+			b.WriteString(F + " regrow(v) { " + P + " \"regrow\"; tree.a = [1300, 1400]; tree.b = {c: [1500, 1600]}; tree.rows[0] = [1700, 1800]; tree.rows = [tree.rows[1], tree.rows[0]]; " + R + " v; }\n")
+			b.WriteString(F + " whole() { " + P + " \"whole\"; grid = [[-1, -2], [-3, -4]]; cube = [grid, grid]; " + R + " 1; }\n")
+			b.WriteString(F + " gg() { " + P + " \"gg\"; " + R + " grid; }\n" + F + " tt() { " + P + " \"tt\"; " + R + " tree; }\n")
+			tags := 0
+			idx := func() string {
+				tags++
+				switch rapid.IntRange(0, 11).Draw(rt, "idx") {
+				case 0, 1:
+					return fmt.Sprint(rapid.IntRange(0, 1).Draw(rt, "k"))
+				case 2, 3:
+					return fmt.Sprintf("p(\"i%d\", %d)", tags, rapid.IntRange(0, 1).Draw(rt, "k"))
+				case 4:
+					return fmt.Sprintf("swap(%d)", rapid.IntRange(0, 1).Draw(rt, "k"))
+				case 5:
+					return fmt.Sprintf("cut(%d)", rapid.IntRange(0, 1).Draw(rt, "k"))
+				case 6:
+					return fmt.Sprintf("regrow(%d)", rapid.IntRange(0, 1).Draw(rt, "k"))
+				case 7:
+					return "whole()"
+				case 8:
+					return "(x = x + 1)"
+				case 9:
+					return "x"
+				case 10:
+					return fmt.Sprintf("p(\"bad%d\", %s)", tags, rapid.SampledFrom([]string{"5", "-1", "\"s\"", "nil", "0.5", "[0]"}).Draw(rt, "bad"))
+				default:
+					return "grid[" + fmt.Sprint(rapid.IntRange(0, 1).Draw(rt, "k")) + "][0] - grid[" + fmt.Sprint(rapid.IntRange(0, 1).Draw(rt, "k2")) + "][0]"
+				}
+			}
+			chain := func() string {
+				base := rapid.SampledFrom([]string{"grid", "grid", "cube", "cube", "tree.a", "tree.b.c", "tree.rows", "gg()", "tt().rows", "tt().b.c", "([[21, 22], [23, 24]])", "([grid[0], grid[1]])", "({k: grid}).k"}).Draw(rt, "base")
+				levels := 2
+				switch {
+				case strings.HasPrefix(base, "cube"):
+					levels = 3
+				case base == "tree.a" || strings.HasSuffix(base, ".c"):
+					levels = 1
+				}
+				levels = rapid.IntRange(1, levels).Draw(rt, "levels")
+				for i := 0; i < levels; i++ {
+					base += "[" + idx() + "]"
+				}
+				return base
+			}
+			ns := rapid.IntRange(1, 4).Draw(rt, "statements")
+			for i := 0; i < ns; i++ {
+				switch rapid.IntRange(0, 6).Draw(rt, "use") {
+				case 0, 1:
+					b.WriteString(P + " " + chain() + ";\n")
+				case 2:
+					b.WriteString(P + " [" + chain() + ", " + chain() + "];\n")
+				case 3:
+					b.WriteString(P + " id2(" + chain() + ", " + chain() + ");\n")
+				case 4:
+					b.WriteString(chain() + " = " + rapid.SampledFrom([]string{"77", "p(\"val\", 78)", "swap(79)", "cut(80)"}).Draw(rt, "val") + ";\n")
+				case 5:
+					b.WriteString(P + " " + chain() + " + " + chain() + ";\n")
+				default:
+					b.WriteString("x = " + chain() + ";\n" + P + " x;\nx = 0;\n")
+				}
+				b.WriteString(P + " [grid, cube, tree.a, tree.b.c, tree.rows, x];\n")
+			}
+			b.WriteString(P + " \"end\";\n")
+			c.c14Program(s, "selector-chains", place(c14Prelude[:strings.Index(c14Prelude, bn.KwVar+" x")]+b.String(), drawPlacement(rt)), 3, false, "selector-chains")
+		})
 		c.Rapid("rand-nested", n, func(rt *rapid.T, s *Sub) {
 			np := rapid.IntRange(2, 8).Draw(rt, "probes")
 			var b strings.Builder
